@@ -480,7 +480,7 @@ def run_err_campaign(camp, tier, seed, wd):
     traces = P.replay(stimuli, wd, driver="driver_err")
     t2 = time.time()
     j = P.judge(traces, wd, module=camp["judge"][0], cfg=camp["judge"][1], name="tr_" + camp["name"])
-    print("  campaign %-28s behaviours=%d gen=%.1fs replay=%.1fs judge=%.1fs fails=%d"
+    print("  campaign %-28s behaviours=%d gen=%.1fs exec=%.1fs judge=%.1fs fails=%d"
           % (camp["name"], len(behaviours), t1 - t0, t2 - t1, time.time() - t2, len(j["fails"])), flush=True)
     summary = {"name": camp["name"], "behaviours_enumerated": len(behaviours), "behaviours_replayed": len(behaviours),
                "sampled": False, "gen": gstats, "gen_states": sum(g["states"] for g in gstats),
@@ -639,7 +639,7 @@ def run_campaign(camp, tier, seed, wd):
                "gen_states": sum(g["states"] for g in gstats), "gen_transitions": sum(g["transitions"] for g in gstats),
                "traces": stats["traces"], "judge_states": jtot["states"], "fails": len(fails),
                "gen_s": round(t1 - t0, 1), "replay_s": round(replay_s, 1), "judge_s": round(judge_s, 1)}
-    print("  campaign %-28s behaviours=%d replayed=%d gen=%.1fs replay=%.1fs judge=%.1fs fails=%d"
+    print("  campaign %-28s behaviours=%d replayed=%d gen=%.1fs exec=%.1fs judge=%.1fs fails=%d"
           % (camp["name"], total, len(stimuli), t1 - t0, replay_s, judge_s, len(fails)), flush=True)
     return {"summary": summary, "stimuli": stimuli, "traces": kept, "judge": jtot, "trace_stats": stats}
 
